@@ -1023,6 +1023,7 @@ class OdeSystem(object):
         self.__allocate_soln_space(total_steps)
         try:
             while (implicit_integration or (self.dt != 0 and D.ar_numpy.abs(tf - self.__t[self.counter]) >= D.tol_epsilon(self.__y[self.counter].dtype))) and not end_int:
+                __rows_before_step = self.counter
                 if not implicit_integration and D.ar_numpy.abs(self.dt) > D.ar_numpy.abs(tf - self.__t[self.counter]):
                     is_final_step = True
                     dt = (tf - self.__t[self.counter])
@@ -1109,8 +1110,10 @@ class OdeSystem(object):
                 if not is_final_step:
                     self.dt = new_dt
 
-                for i in callback:
-                    i(self)
+                if self.counter > __rows_before_step:
+                    # (a terminal event sitting exactly on the start of the step leaves nothing recorded: there is no new state to report)
+                    for i in callback:
+                        i(self)
 
                 if tqdm_progress_bar is not None:
                     tqdm_progress_bar.total = tqdm_progress_bar.n
